@@ -50,6 +50,9 @@ DEFAULTS = dict(
     p_reuse_pick=0.0,    # inside a scope built with sibling reuse a new local takes a freed
     #                      sibling name with this probability (else: uniform over free names)
     p_inj_feed=0.0,      # an input of an extra injectible call is an output of an earlier one
+    p_graph_edb=0.0,     # fact table over a closed 3-value domain (`F(F(x))` stays defined)
+    p_hazard_rule=0.0,   # share of intensional predicates that are small rules built around
+    #                      calls of injectibles (see Gen.idb_hazard)
 )
 
 
@@ -152,8 +155,33 @@ class Gen(object):
         return {'fields': tuple(zip(fields, types)), 'value': vt}
 
     # ------------------------------------------------------------------ EDB
+    def edb_graph(self, name):
+        """2-3 columns of one atom type over a closed domain of 3 values, 4-6 rows with
+        repetition: joins chain (aggregates over it computed from its own values are
+        again keys of it)."""
+        rng = self.rng
+        t = 'N' if rng.random() < 0.7 else 'S'
+        ar = rng.choice((2, 2, 3))
+        named = rng.random() < 0.3
+        fields = tuple((('f%d' % i) if (named or (i == 2 and rng.random() < 0.5)) else i, t)
+                       for i in range(ar))
+        dom = rng.sample([x for x in (NUMS if t == 'N' else STRS)], 3)
+        s = {'fields': fields, 'value': None}
+        self.sig[name] = s
+        for _ in range(rng.randint(4, 6)):
+            row = [('lit', rng.choice(dom)) for _ in range(ar)]
+            for (f, _t), v in zip(fields, row):
+                self.colvals.setdefault((name, f), []).append(v)
+            self.rules.append(mk_rule(name, tuple((f, v) for (f, _t), v in zip(fields, row)),
+                                      ()))
+        self.concrete.append(name)
+        self.graphs = getattr(self, 'graphs', []) + [name]
+        self.labels.add('graph_edb')
+
     def edb(self, name):
         rng = self.rng
+        if self.o['p_graph_edb'] and self.chance(self.o['p_graph_edb']):
+            return self.edb_graph(name)
         s = self.new_sig(allow_composite=True)
         self.sig[name] = s
         n = rng.randint(1, self.o['max_rows'])
@@ -313,7 +341,7 @@ class Gen(object):
                         self.rng.choice(inner)
                     # one level only: every use of a parameter copies the argument's SQL,
                     # F(F(F(F(x)))) with 5 uses each is 625 copies of a correlated sub-query
-                    a = self.inj_fcall(m, env, 1, nest=False)
+                    a = self.inj_fcall(m, env, 1, nest=False, feed=feed)
                     self.labels.add('inj_fun_call_nested')
                     if m == n:
                         self.labels.add('inj_fun_call_nested_same')
@@ -555,6 +583,9 @@ class Gen(object):
                         cands.append((n, i, j))
         if not cands:
             return None
+        dense = [c for c in cands if c[0] in getattr(self, 'graphs', ())]
+        if dense and rng.random() < 0.85:
+            cands = dense
         n, i, j = rng.choice(cands)
         fields = self.sig[n]['fields']
         maxpos = max([k for k in (i, j) if isinstance(fields[k][0], int)] + [-1])
@@ -939,14 +970,14 @@ class Gen(object):
             lits.extend(self.extra_inj_calls(env))
         return lits
 
-    def extra_inj_calls(self, env):
+    def extra_inj_calls(self, env, feed0=()):
         """1-3 more calls of injectibles (preferably those containing combines): the same
         one twice, the output of one feeding the next, nested function calls."""
         rng = self.rng
         hot = [n for n in getattr(self, 'inj_hot', []) if n in self.inj]
         out = []
         n = None
-        feed = []          # (variable, type): outputs of the calls made so far
+        feed = list(feed0)   # (variable, type): outputs of the calls made so far
         for i in range(rng.choice((1, 2, 2, 3))):
             if n is None or rng.random() < 0.4:
                 n = rng.choice(hot) if hot and rng.random() < 0.75 else \
@@ -956,7 +987,7 @@ class Gen(object):
             if self.inj_sig[n][0] == 'rel':
                 lit = self.inj_call(env, name=n, feed=feed)
                 k_in = self.inj_sig[n][2]
-                for (i, a), pt in list(zip(lit[2], self.inj_sig[n][1]))[k_in:]:
+                for (_, a), pt in list(zip(lit[2], self.inj_sig[n][1]))[k_in:]:
                     if a[0] == 'var':
                         feed.append((a[1], pt))
             else:
@@ -1122,6 +1153,84 @@ class Gen(object):
         self.sig[name] = s
         self.concrete.append(name)
 
+    def idb_hazard(self, name):
+        """A small predicate built around injection (the shapes of C08):
+          calls   I(x, a, b) :- E(x), a == F(x), b == F(a), J(b, lo, hi)   1-3 calls of
+                  injectibles, chained / nested, optionally reading an earlier such predicate
+                  (which is itself injected unless annotated);
+          stats   I(k, lo, hi) :- E(k), lo = Min{y :- T(k, y)}, hi = Max{y :- T(y, k)}, ~T(k, y)
+                  sibling scopes sharing a local name, single rule: injectable into callers.
+        Variables of the caller take names of the callees' locals (p_name_clash)."""
+        rng = self.rng
+        o = self.o
+        self.used = set()
+        self.roots = set()
+        self._sib_locals = set()
+        self._agg_results = []
+        self._reused = set()
+        saved = {k: o[k] for k in ('p_inj_feed', 'p_name_clash', 'p_short', 'p_reuse_pick',
+                                   'p_sibling_reuse', 'p_sibling_reuse_neg', 'p_fcall')}
+        o['p_inj_feed'] = max(o['p_inj_feed'], 0.8)
+        o['p_name_clash'] = max(o['p_name_clash'], 0.7)
+        o['p_reuse_pick'] = max(o['p_reuse_pick'], 0.7)
+        o['p_sibling_reuse'] = max(o['p_sibling_reuse'], 0.8)
+        o['p_sibling_reuse_neg'] = max(o['p_sibling_reuse_neg'], 0.8)
+        o['p_short'] = 0.0
+        o['p_fcall'] = 0.0
+        self._aggx_off += 1
+        try:
+            env = {}
+            first = [n for n in self.concrete if n.startswith('E')]
+            if getattr(self, 'graphs', None) and rng.random() < 0.85:
+                first = self.graphs
+            body = [self.call(env, name=rng.choice(first), fresh_only=True)]
+            keys = [(v, t) for v, t in env.items() if t in ATOMS]
+            prev = [n for n in getattr(self, 'hazard_preds', []) if n in self.concrete]
+            if prev and rng.random() < 0.5:
+                before = set(env)
+                body.append(self.call(env, name=rng.choice(prev), fresh_only=True))
+                keys += [(v, t) for v, t in env.items() if v not in before and t in ATOMS]
+                self.labels.add('hazard_reads_hazard_predicate')
+            outs = []
+            stats = rng.random() < 0.3 or not self.inj
+            if stats and keys:
+                for kind in rng.choice((('agg', 'agg'), ('agg', 'agg'), ('neg', 'neg'),
+                                        ('agg', 'neg'), ('agg', 'agg', 'neg'))):
+                    key = rng.choice(keys)[0]
+                    if kind == 'agg':
+                        lit = self.keyed_combine(env, key)
+                        if lit:
+                            body.append(lit)
+                            outs.append((lit[1], env[lit[1]]))
+                    else:
+                        lit = self.keyed_negation(env, key)
+                        if lit:
+                            body.append(lit)
+                self.labels.add('hazard_rule_stats')
+            elif self.inj:
+                n_before = set(env)
+                body.extend(self.extra_inj_calls(env, feed0=keys))
+                outs = [(v, t) for v, t in env.items() if v not in n_before and t in ATOMS]
+                self.labels.add('hazard_rule_calls')
+            cols = (outs + keys)[:3] if rng.random() < 0.7 else (keys[:1] + outs)[:3]
+            if not cols:
+                cols = [(v, t) for v, t in env.items()][:1]
+            head = [(i, ('var', v)) for i, (v, t) in enumerate(cols)]
+            types = [t for v, t in cols]
+            rng.shuffle(body)
+        finally:
+            self._aggx_off -= 1
+            o.update(saved)
+        self.rules.append(mk_rule(name, head, body))
+        self.sig[name] = {'fields': tuple((i, t) for i, t in enumerate(types)), 'value': None}
+        self.concrete.append(name)
+        self.hazard_preds = getattr(self, 'hazard_preds', []) + [name]
+        if o['p_name_clash']:
+            for v in sorted(self._reused):
+                if v not in self.hot_names:
+                    self.hot_names.append(v)
+        self.labels.add('hazard_rule')
+
     def maybe_permute_head(self, head, opts):
         """Named head arguments in another order denote the same row."""
         head = list(head)
@@ -1155,7 +1264,10 @@ class Gen(object):
         for i in range(rng.randint(*o['n_inj'])):
             self.make_inj('J%d' % i)
         for i in range(rng.randint(*o['n_idb'])):
-            self.idb_nonempty('I%d' % i)
+            if o['p_hazard_rule'] and self.chance(o['p_hazard_rule']):
+                self.idb_nonempty('I%d' % i, maker=self.idb_hazard)
+            else:
+                self.idb_nonempty('I%d' % i)
         return self.result()
 
     def idb_nonempty(self, name, maker=None):
